@@ -45,6 +45,7 @@ type cthread struct {
 	kind  string // client, consumer, fork, split, join, ctor (a constructor from n initial values, then size and array)
 	form  string // ctor: array, seq, module, parse
 	n     int    // ctor: number of initial values
+	vals  []int  // ctor: the initial values (codes, see concelem.go); len(vals) == n
 	calls []ccall
 	q     int   // consumer: queue; fork/split: input; join: output
 	qs    []int // fork/split: outputs; join: inputs
@@ -56,6 +57,7 @@ type cprog struct {
 	wg      int
 	threads []cthread // helpers first (in creation order), then clients
 	family  string
+	elem    string // element type of every queue of the program: int (default), string, ptr, any, slice (concelem.go)
 }
 
 func (c ccall) gallina() string {
@@ -100,8 +102,8 @@ func (t cthread) gallina() string {
 		return "client [" + strings.Join(cs, "; ") + "]"
 	case "ctor":
 		cs := make([]string, 0, t.n+2)
-		for i := 1; i <= t.n; i++ {
-			cs = append(cs, fmt.Sprintf("CAdd 0 %d", i))
+		for _, v := range t.vals {
+			cs = append(cs, fmt.Sprintf("CAdd 0 %d", v))
 		}
 		cs = append(cs, "CGetSize 0", "CAsArray 0")
 		return "client [" + strings.Join(cs, "; ") + "]"
@@ -124,6 +126,9 @@ func (t cthread) human() string {
 		for i, c := range t.calls {
 			if c.op == "add" {
 				cs[i] = fmt.Sprintf("add(q%d,%d)", c.q, c.v)
+				if c.v < 10 {
+					cs[i] = fmt.Sprintf("add(q%d,%d:ZERO/SPECIAL)", c.q, c.v)
+				}
 			} else if c.op == "wait" || c.op == "done" {
 				cs[i] = c.op
 			} else {
@@ -132,7 +137,7 @@ func (t cthread) human() string {
 		}
 		return "client{" + strings.Join(cs, " ") + "}"
 	case "ctor":
-		return fmt.Sprintf("client{q0 := Queue constructor form=%s with %d initial values; size(q0) array(q0)}", t.form, t.n)
+		return fmt.Sprintf("client{q0 := Queue constructor form=%s with %d initial values %s; size(q0) array(q0)}", t.form, t.n, shortCodes(t.vals))
 	case "consumer":
 		return fmt.Sprintf("consumer-until-closed(q%d)", t.q)
 	default:
@@ -355,17 +360,47 @@ type crun struct {
 }
 
 // runProgram executes prog on the real library; choose picks the index (into the enabled list) at each step.
+// The queues carry values of the program's element type (prog.elem); the program text and the observations
+// speak of values by their integer CODE (concelem.go: the zero value of the element type is code 0).
 func runProgram(prog cprog, choose func(step int, enabled []int) int) crun {
+	switch prog.elem {
+	case "", "int":
+		return runProgramT(prog, intCodec(), choose)
+	case "string":
+		return runProgramT(prog, stringCodec(), choose)
+	case "ptr":
+		return runProgramT(prog, ptrCodec(), choose)
+	case "any":
+		return runProgramT(prog, anyCodec(), choose)
+	case "slice":
+		return runProgramT(prog, sliceCodec(), choose)
+	}
+	panic("runProgram: unknown element type " + prog.elem)
+}
+
+func runProgramT[V any](prog cprog, cd elemCodec[V], choose func(step int, enabled []int) int) crun {
+	enc, dec := cd.table(progCodes(prog))
+	codesOf := func(q anyQueue) []int {
+		if tq, ok := q.(col.QueueLike[V]); ok {
+			arr := tq.AsArray()
+			out := make([]int, len(arr))
+			for i, v := range arr {
+				out[i] = dec(v)
+			}
+			return out
+		}
+		return asInts(q) // a parsed Queue literal: a queue of `any` holding integers
+	}
 	s := &csched{byGoid: map[int64]*sthread{}, qindex: map[any]int{}}
 	s.cond = sync.NewCond(&s.mu)
 	s.schedGoid = curGoid()
 	col.VerifHook = s.hook
 	defer func() { col.VerifHook = nil }()
 	group := &cgroup{s}
-	class := col.Queue[int](sharedNotation)
+	class := col.Queue[V](sharedNotation)
 	s.queues = make([]anyQueue, len(prog.caps))
 	s.closed = map[any]bool{}
-	iq := func(i int) col.QueueLike[int] { return s.queues[i].(col.QueueLike[int]) }
+	iq := func(i int) col.QueueLike[V] { return s.queues[i].(col.QueueLike[V]) }
 	var out crun
 	// queues that are not created by a helper constructor
 	made := make([]bool, len(prog.caps))
@@ -395,7 +430,7 @@ func runProgram(prog cprog, choose func(step int, enabled []int) int) crun {
 	for _, t := range prog.threads {
 		switch t.kind {
 		case "fork", "split":
-			var outs col.Sequential[col.QueueLike[int]]
+			var outs col.Sequential[col.QueueLike[V]]
 			if t.kind == "fork" {
 				outs = class.Fork(group, iq(t.q), uint(len(t.qs)))
 			} else {
@@ -410,11 +445,11 @@ func runProgram(prog cprog, choose func(step int, enabled []int) int) crun {
 			s.mu.Unlock()
 			out.helpers++
 		case "join":
-			ins := make([]col.QueueLike[int], len(t.qs))
+			ins := make([]col.QueueLike[V], len(t.qs))
 			for i, q := range t.qs {
 				ins[i] = iq(q)
 			}
-			list := col.List[col.QueueLike[int]](sharedNotation).MakeFromArray(ins)
+			list := col.List[col.QueueLike[V]](sharedNotation).MakeFromArray(ins)
 			o := class.Join(group, list)
 			s.mu.Lock()
 			s.queues[t.q] = o
@@ -475,7 +510,7 @@ func runProgram(prog cprog, choose func(step int, enabled []int) int) crun {
 				s.cond.Broadcast()
 				s.mu.Unlock()
 			}()
-			doCall := func(c ccall) (v int, ok bool) {
+			doCall := func(c ccall) (v V, ok bool) {
 				if c.op == "wait" {
 					group.Wait()
 					t.results = append(t.results, "RWaited")
@@ -489,11 +524,11 @@ func runProgram(prog cprog, choose func(step int, enabled []int) int) crun {
 				q := iq(c.q)
 				switch c.op {
 				case "add":
-					q.AddValue(c.v)
+					q.AddValue(enc(c.v))
 					t.results = append(t.results, "RAdded")
 				case "head":
 					v, ok = q.RemoveHead()
-					t.results = append(t.results, fmt.Sprintf("RHead %d %v", v, ok))
+					t.results = append(t.results, fmt.Sprintf("RHead %s %v", zlit(int64(dec(v))), ok))
 				case "close":
 					q.CloseQueue()
 					t.results = append(t.results, "RClosed")
@@ -505,27 +540,27 @@ func runProgram(prog cprog, choose func(step int, enabled []int) int) crun {
 				case "empty":
 					t.results = append(t.results, fmt.Sprintf("REmpty %v", q.IsEmpty()))
 				case "array":
-					t.results = append(t.results, "RArray "+zList(q.AsArray()))
+					t.results = append(t.results, "RArray "+zList(codesOf(q)))
 				}
 				return
 			}
 			if pt.kind == "ctor" {
-				vals := make([]int, pt.n)
+				vals := make([]V, pt.n)
 				for i := range vals {
-					vals[i] = i + 1
+					vals[i] = enc(pt.vals[i])
 				}
 				var q anyQueue
 				switch pt.form {
 				case "array":
 					q = class.MakeFromArray(vals)
 				case "seq":
-					q = class.MakeFromSequence(col.List[int](sharedNotation).MakeFromArray(vals))
+					q = class.MakeFromSequence(col.List[V](sharedNotation).MakeFromArray(vals))
 				case "module":
-					q = fra.Queue[int](vals)
-				default:
+					q = fra.Queue[V](vals)
+				default: // "parse": integers only (genConc never asks for it with another element type)
 					items := make([]string, len(vals))
-					for i, v := range vals {
-						items[i] = strconv.Itoa(v)
+					for i := range vals {
+						items[i] = strconv.Itoa(pt.vals[i])
 					}
 					src := "[" + strings.Join(items, ", ") + "](Queue)"
 					if len(vals) == 0 {
@@ -541,7 +576,7 @@ func runProgram(prog cprog, choose func(step int, enabled []int) int) crun {
 				s.qindex[q] = 0
 				s.mu.Unlock()
 				t.results = append(t.results, fmt.Sprintf("RSize %d", q.GetSize()))
-				t.results = append(t.results, "RArray "+zList(asInts(q)))
+				t.results = append(t.results, "RArray "+zList(codesOf(q)))
 				return
 			}
 			if pt.kind == "consumer" {
@@ -626,7 +661,7 @@ func runProgram(prog cprog, choose func(step int, enabled []int) int) crun {
 				out.queues = append(out.queues, "{| qo_vals := []; qo_tok := 0; qo_cap := 0 |}")
 				continue
 			}
-			arr := asInts(q)
+			arr := codesOf(q)
 			out.arrays = append(out.arrays, arr)
 			out.sizes = append(out.sizes, q.GetSize())
 			out.queues = append(out.queues, fmt.Sprintf("{| qo_vals := %s; qo_tok := %d; qo_cap := %d |}", zList(arr), q.GetSize(), q.GetCapacity()))
@@ -694,30 +729,30 @@ func checkRun(prog cprog, run crun) []string {
 			bad = append(bad, fmt.Sprintf("when helper goroutine %d was started the caller's wait group counted %d instead of %d: group.Add must precede the go statement, otherwise group.Wait can return before the helper has run (outputs never filled nor closed)", i+1, n, i+1))
 		}
 	}
+	// values are identified by their code; one code may be added several times (streams of zero values), so
+	// everything below counts with multiplicity
 	hasRemoveAll := false
-	added := map[int]bool{}     // values whose append step ran
-	completed := map[int]bool{} // values whose AddValue returned
-	addQ := map[int]int{}
-	for ti, t := range prog.threads {
+	completed := map[int]int{} // per code: how many AddValue calls returned
+	addCount := map[int]int{}  // per code: how many AddValue calls the program contains
+	for _, t := range prog.threads {
 		for _, c := range t.calls {
 			if c.op == "removeall" {
 				hasRemoveAll = true
 			}
 			if c.op == "add" {
-				addQ[c.v] = c.q
+				addCount[c.v]++
 			}
 		}
-		_ = ti
 	}
-	// replay the schedule to know which call each step belongs to (clients only)
+	// walk the results of every client to know which call each result belongs to
 	delivered := map[int]int{}
-	var popOrder []int
 	for ti, res := range run.results {
 		if res == nil {
 			continue
 		}
 		pt := prog.threads[ti]
 		ci := 0
+		okFalse := false
 		for _, r := range res {
 			switch {
 			case r == "RAdded":
@@ -725,16 +760,22 @@ func checkRun(prog cprog, run crun) []string {
 					ci++
 				}
 				if ci < len(pt.calls) {
-					completed[pt.calls[ci].v] = true
-					added[pt.calls[ci].v] = true
+					completed[pt.calls[ci].v]++
 					ci++
 				}
 			case strings.HasPrefix(r, "RHead "):
 				f := strings.Fields(r)
-				v, _ := strconv.Atoi(f[1])
+				v, _ := strconv.Atoi(strings.Trim(f[1], "()"))
 				if f[2] == "true" {
 					delivered[v]++
-					popOrder = append(popOrder, v)
+					if okFalse && pt.kind == "consumer" {
+						bad = append(bad, fmt.Sprintf("thread %d received %s after ok=false", ti, codeName(prog.elem, v)))
+					}
+				} else {
+					okFalse = true
+					if v != 0 {
+						bad = append(bad, fmt.Sprintf("thread %d: RemoveHead returned ok=false together with %s instead of the zero value", ti, codeName(prog.elem, v)))
+					}
 				}
 			case strings.HasPrefix(r, "RSize "):
 				n, _ := strconv.Atoi(strings.Fields(r)[1])
@@ -763,31 +804,31 @@ func checkRun(prog cprog, run crun) []string {
 			}
 		}
 	}
-	allAdds := map[int]bool{}
-	for v := range addQ {
-		allAdds[v] = true
-	}
 	if prog.family != "pipes" {
 		for v, n := range delivered {
-			if !allAdds[v] {
-				bad = append(bad, fmt.Sprintf("value %d was delivered but never added", v))
-			}
-			if n > 1 {
-				bad = append(bad, fmt.Sprintf("value %d was delivered %d times", v, n))
+			if addCount[v] == 0 {
+				bad = append(bad, fmt.Sprintf("%s was delivered but never added", codeName(prog.elem, v)))
+			} else if n > addCount[v] {
+				bad = append(bad, fmt.Sprintf("%s was delivered %d times but added only %d times", codeName(prog.elem, v), n, addCount[v]))
 			}
 		}
 		if run.final && !hasRemoveAll {
-			inq := map[int]bool{}
+			inq := map[int]int{}
 			for _, a := range run.arrays {
 				for _, v := range a {
-					inq[v] = true
+					inq[v]++
 				}
 			}
-			for v := range completed {
-				if delivered[v] == 0 && !inq[v] {
-					bad = append(bad, fmt.Sprintf("value %d: AddValue returned but it was neither delivered nor is it still queued", v))
+			for v, n := range completed {
+				if delivered[v]+inq[v] < n {
+					bad = append(bad, fmt.Sprintf("%s: %d AddValue calls returned but only %d were delivered and %d are still queued", codeName(prog.elem, v), n, delivered[v], inq[v]))
 				}
 			}
+		}
+	}
+	for _, t := range prog.threads {
+		if t.kind == "ctor" && run.final && len(run.arrays) > 0 && fmt.Sprint(run.arrays[0]) != fmt.Sprint(append([]int{}, t.vals...)) {
+			bad = append(bad, fmt.Sprintf("the Queue constructor (form %s) was given %s but the new queue holds %s", t.form, codeNames(prog.elem, t.vals), codeNames(prog.elem, run.arrays[0])))
 		}
 	}
 	anyPanic := false
@@ -809,14 +850,28 @@ func checkRun(prog cprog, run crun) []string {
 
 // ---------- generators ----------
 
-func genPC(r *rng, withRemoveAll bool) cprog {
+func genPC(r *rng, withRemoveAll bool, elem string) cprog {
 	var p cprog
 	p.family = "pc"
+	p.elem = elem
 	p.caps = []int{1 + r.intn(3)}
 	np := 1 + r.intn(3)
 	nc := 1 + r.intn(3)
 	closer := r.chance(2, 3)
-	next := 1
+	// the values: ordinary distinct ones (10, 11, ...) and, a third of the time, the zero value or another special
+	// value of the element type; one program in eight adds nothing but zero values
+	nextOrdinary := 10
+	allZero := r.chance(1, 8)
+	draw := func() int {
+		if allZero {
+			return 0
+		}
+		if r.chance(1, 3) {
+			return pickSpecial(r, elem)
+		}
+		nextOrdinary++
+		return nextOrdinary - 1
+	}
 	p.wg = 0
 	var total int
 	for i := 0; i < np; i++ {
@@ -824,8 +879,7 @@ func genPC(r *rng, withRemoveAll bool) cprog {
 		t.kind = "client"
 		n := 1 + r.intn(3)
 		for j := 0; j < n; j++ {
-			t.calls = append(t.calls, ccall{op: "add", q: 0, v: next})
-			next++
+			t.calls = append(t.calls, ccall{op: "add", q: 0, v: draw()})
 			total++
 			if r.chance(1, 8) {
 				t.calls = append(t.calls, ccall{op: "size", q: 0})
@@ -867,8 +921,7 @@ func genPC(r *rng, withRemoveAll bool) cprog {
 		t.kind = "client"
 		t.calls = append(t.calls, ccall{op: "removeall", q: 0})
 		if r.chance(1, 3) {
-			t.calls = append(t.calls, ccall{op: "add", q: 0, v: next}, ccall{op: "size", q: 0})
-			next++
+			t.calls = append(t.calls, ccall{op: "add", q: 0, v: draw()}, ccall{op: "size", q: 0})
 		}
 		p.threads = append(p.threads, t)
 	}
@@ -879,9 +932,10 @@ func genPC(r *rng, withRemoveAll bool) cprog {
 	return p
 }
 
-func genPipes(r *rng, shape int, length, fan, capacity int) cprog {
+func genPipes(r *rng, shape int, stream []int, fan, capacity int, elem string) cprog {
 	var p cprog
 	p.family = "pipes"
+	p.elem = elem
 	// queue 0 = input
 	p.caps = []int{capacity}
 	outs := make([]int, fan)
@@ -909,8 +963,8 @@ func genPipes(r *rng, shape int, length, fan, capacity int) cprog {
 	}
 	var feeder cthread
 	feeder.kind = "client"
-	for i := 0; i < length; i++ {
-		feeder.calls = append(feeder.calls, ccall{op: "add", q: 0, v: 10 + i})
+	for _, v := range stream {
+		feeder.calls = append(feeder.calls, ccall{op: "add", q: 0, v: v})
 	}
 	feeder.calls = append(feeder.calls, ccall{op: "close", q: 0})
 	p.threads = append(p.threads, feeder)
@@ -925,13 +979,23 @@ func genPipes(r *rng, shape int, length, fan, capacity int) cprog {
 // expected streams of the pipes family, computed independently of the model (C06's own statement)
 func checkPipes(prog cprog, run crun, shape int, length, fan int) []string {
 	var bad []string
-	if !run.final {
-		bad = append(bad, "the pipeline did not terminate: some goroutine never finished although no step was enabled")
-		return bad
+	// the stream is what the feeder (the only client that adds) puts into queue 0
+	var input []int
+	for _, t := range prog.threads {
+		for _, c := range t.calls {
+			if c.op == "add" {
+				input = append(input, c.v)
+			}
+		}
 	}
-	input := make([]int, length)
-	for i := range input {
-		input[i] = 10 + i
+	if !run.final {
+		bad = append(bad, fmt.Sprintf("the pipeline fed with %s did not terminate: some goroutine never finished although no step was enabled", codeNames(prog.elem, input)))
+		for ti, t := range prog.threads {
+			if t.kind == "consumer" && run.results[ti] != nil {
+				bad = append(bad, fmt.Sprintf("  (reader of q%d so far: %s)", t.q, strings.Join(run.results[ti], ", ")))
+			}
+		}
+		return bad
 	}
 	ri := 0
 	for ti, t := range prog.threads {
@@ -944,7 +1008,7 @@ func checkPipes(prog cprog, run crun, shape int, length, fan int) []string {
 			f := strings.Fields(r)
 			if f[0] == "RHead" {
 				if f[2] == "true" {
-					v, _ := strconv.Atoi(f[1])
+					v, _ := strconv.Atoi(strings.Trim(f[1], "()"))
 					got = append(got, v)
 					if okFalse > 0 {
 						bad = append(bad, fmt.Sprintf("reader of q%d received a value after ok=false", t.q))
@@ -966,7 +1030,7 @@ func checkPipes(prog cprog, run crun, shape int, length, fan int) []string {
 			}
 		}
 		if fmt.Sprint(got) != fmt.Sprint(append([]int{}, want...)) && !(len(got) == 0 && len(want) == 0) {
-			bad = append(bad, fmt.Sprintf("reader of q%d received %v, expected %v", t.q, got, want))
+			bad = append(bad, fmt.Sprintf("reader of q%d received %s, expected %s (element type %s)", t.q, codeNames(prog.elem, got), codeNames(prog.elem, want), elemName(prog.elem)))
 		}
 		if okFalse != 1 {
 			bad = append(bad, fmt.Sprintf("reader of q%d saw ok=false %d times", t.q, okFalse))
@@ -1025,6 +1089,7 @@ func (c concCase) human() []string {
 	for i, t := range c.prog.threads {
 		ths[i] = fmt.Sprintf("t%d=%s", i, t.human())
 	}
+	h = append(h, fmt.Sprintf("element type %s; values are written as codes: %s", elemName(c.prog.elem), codeNames(c.prog.elem, progCodes(c.prog))))
 	h = append(h, fmt.Sprintf("caps=%v wg=%d %s", c.prog.caps, c.prog.wg, strings.Join(ths, " ")))
 	h = append(h, fmt.Sprintf("schedule=%v", c.run.sched))
 	for i, r := range c.run.results {
@@ -1113,9 +1178,10 @@ func genConc(prop string, seed uint64, tier, outDir string, count int) error {
 		}
 		var prog cprog
 		shape, length, fan := -1, 0, 0
+		// every element type in turn, so that each (family, element type) pair gets its share of the cases
 		switch prop {
 		case "C04":
-			prog = genPC(r, i%4 == 3)
+			prog = genPC(r, i%4 == 3, concElems[(i/4)%len(concElems)])
 		case "C05":
 			if i%5 == 4 {
 				// constructors from N initial values, N across 0 .. 4*capacity
@@ -1123,20 +1189,41 @@ func genConc(prop string, seed uint64, tier, outDir string, count int) error {
 				if r.chance(1, 3) {
 					n = r.intn(66)
 				}
-				form := []string{"array", "seq", "module", "parse"}[r.intn(4)]
+				elem := concElems[(i/5)%len(concElems)]
+				forms := []string{"array", "seq", "module", "parse"}
+				if elem != "int" {
+					forms = forms[:3] // the parsed literal is a queue of integers
+				}
+				form := forms[r.intn(len(forms))]
 				if form == "module" && n == 0 {
 					form = "array" // the module-level form with no data is C20's matter
 				}
-				prog = cprog{family: "ctor", caps: []int{0}, capExpr: []string{fmt.Sprintf("Z.to_nat (Z.max Params.queue_default_capacity %d)", n)}}
-				prog.threads = []cthread{{kind: "ctor", form: form, n: n}}
+				vals := genStream(r, n, elem, streamPatterns[r.intn(len(streamPatterns))])
+				if form == "parse" {
+					for k := range vals {
+						vals[k] = 10 + k // the literal's items are written as the integers themselves
+					}
+				}
+				prog = cprog{family: "ctor", elem: elem, caps: []int{0}, capExpr: []string{fmt.Sprintf("Z.to_nat (Z.max Params.queue_default_capacity %d)", n)}}
+				prog.threads = []cthread{{kind: "ctor", form: form, n: n, vals: vals}}
 			} else {
-				prog = genPC(r, i%2 == 1)
+				prog = genPC(r, i%2 == 1, concElems[(i/2)%len(concElems)])
 			}
 		case "C06":
 			shape = i % 3
+			elem := concElems[(i/3)%len(concElems)]
+			pattern := streamPatterns[(i/15)%len(streamPatterns)]
 			length = r.intn(7)
+			if pattern != "no-zero" && length == 0 && r.chance(3, 4) {
+				length = 1 + r.intn(6)
+			}
 			fan = 2 + r.intn(2)
-			prog = genPipes(r, shape, length, fan, 1+r.intn(2))
+			prog = genPipes(r, shape, genStream(r, length, elem, pattern), fan, 1+r.intn(2), elem)
+			meta.OpHist["stream:"+pattern]++
+		}
+		meta.OpHist["elem:"+elemName(prog.elem)]++
+		if progHasSpecial(prog) {
+			meta.OpHist["programs with a zero/special value"]++
 		}
 		c := runCase(prog, r.fork(), shape, length, fan)
 		if c.run.hung {
@@ -1155,8 +1242,8 @@ func genConc(prop string, seed uint64, tier, outDir string, count int) error {
 			for capn := 1; capn <= 2; capn++ {
 				p := cprog{family: "pc", caps: []int{capn}, wg: 2}
 				p.threads = []cthread{
-					{kind: "client", calls: []ccall{{op: "add", q: 0, v: 1}, {op: "done"}}},
-					{kind: "client", calls: []ccall{{op: "add", q: 0, v: 2}, {op: "done"}}},
+					{kind: "client", calls: []ccall{{op: "add", q: 0, v: 10}, {op: "done"}}},
+					{kind: "client", calls: []ccall{{op: "add", q: 0, v: 11}, {op: "done"}}},
 					{kind: "client", calls: []ccall{{op: "wait"}, {op: "close", q: 0}}},
 					{kind: "consumer", q: 0},
 				}
@@ -1166,7 +1253,7 @@ func genConc(prop string, seed uint64, tier, outDir string, count int) error {
 				}{p, -1, 0, 0})
 				p2 := cprog{family: "pc", caps: []int{capn}, wg: 0}
 				p2.threads = []cthread{
-					{kind: "client", calls: []ccall{{op: "add", q: 0, v: 1}, {op: "add", q: 0, v: 2}}},
+					{kind: "client", calls: []ccall{{op: "add", q: 0, v: 10}, {op: "add", q: 0, v: 11}}},
 					{kind: "client", calls: []ccall{{op: "head", q: 0}}},
 					{kind: "client", calls: []ccall{{op: "removeall", q: 0}, {op: "size", q: 0}}},
 				}
@@ -1175,13 +1262,43 @@ func genConc(prop string, seed uint64, tier, outDir string, count int) error {
 					shape, length, fan int
 				}{p2, -1, 0, 0})
 			}
+			// one program per element type with the zero value in the stream (capacity 1: a producer adds the zero value,
+			// another an ordinary one; closer behind the wait group; a read-until-closed consumer)
+			for _, elem := range concElems {
+				p := cprog{family: "pc", elem: elem, caps: []int{1}, wg: 2}
+				p.threads = []cthread{
+					{kind: "client", calls: []ccall{{op: "add", q: 0, v: 0}, {op: "done"}}},
+					{kind: "client", calls: []ccall{{op: "add", q: 0, v: 10}, {op: "done"}}},
+					{kind: "client", calls: []ccall{{op: "wait"}, {op: "close", q: 0}}},
+					{kind: "consumer", q: 0},
+				}
+				progs = append(progs, struct {
+					p                  cprog
+					shape, length, fan int
+				}{p, -1, 0, 0})
+			}
 		case "C06":
 			for shape := 0; shape < 3; shape++ {
 				for length := 0; length <= 2; length++ {
 					progs = append(progs, struct {
 						p                  cprog
 						shape, length, fan int
-					}{genPipes(r, shape, length, 2, 1), shape, length, 2})
+					}{genPipes(r, shape, genStream(r, length, "int", "no-zero"), 2, 1, "int"), shape, length, 2})
+				}
+			}
+			// one program per element type with the zero value in the stream: Split(2) followed by Join, stream [x, zero]
+			// (plus, for the types that have one, a second special value first)
+			for _, elem := range concElems {
+				stream := []int{10, 0}
+				progs = append(progs, struct {
+					p                  cprog
+					shape, length, fan int
+				}{genPipes(r, 2, stream, 2, 1, elem), 2, 2, 2})
+				if sp := elemSpecials(elem); len(sp) > 1 {
+					progs = append(progs, struct {
+						p                  cprog
+						shape, length, fan int
+					}{genPipes(r, 0, []int{sp[1], 0}, 2, 1, elem), 0, 2, 2})
 				}
 			}
 		}
@@ -1227,7 +1344,7 @@ func genConc(prop string, seed uint64, tier, outDir string, count int) error {
 	}
 	meta.Extra["cases_violating_the_property_predicates_on_the_implementation"] = predViol
 	meta.Cases = len(cases)
-	meta.Rule = "each case is a client program (C04/C05: 1-3 producers adding 1-3 distinct values, 1-3 consumers (fixed number of RemoveHead or read-until-closed), capacity 1-3, optional closer behind the wait group, observers, optional RemoveAll caller, occasionally a CloseQueue racing with AddValue; C06: Fork/Split/Split+Join with stream length 0-6, fan-out 2-3, capacity 1-2, feeder, one reader per output, a waiter) together with the schedule the controlled scheduler drew for it on the real code (thorough: additionally every schedule of a few small programs, up to 4000 each); distinct = the (program, schedule, results) text differs; non-trivial = at least 4 granted steps"
+	meta.Rule = "the queues of a case carry one of the element types int, string, *int, any, []int (each in turn); values are written as integer codes (0 = the zero value of the type: 0, \"\", nil pointer, nil interface, nil slice; 1..9 further special values: pointer to 0, any(\"\"), any(0), any((*int)(nil)), any([]int(nil)), any(false), empty non-nil slice; >= 10 ordinary distinct values); about a third of the added values are zero/special, one program in eight adds only zero values; C06 streams follow the patterns no-zero / zero-first / zero-middle / zero-last / all-zero / mixed / specials-only in turn; each case is a client program (C04/C05: 1-3 producers adding 1-3 values, 1-3 consumers (fixed number of RemoveHead or read-until-closed), capacity 1-3, optional closer behind the wait group, observers, optional RemoveAll caller, occasionally a CloseQueue racing with AddValue; C06: Fork/Split/Split+Join with stream length 0-6, fan-out 2-3, capacity 1-2, feeder, one reader per output, a waiter) together with the schedule the controlled scheduler drew for it on the real code (thorough: additionally every schedule of a few small programs, up to 4000 each); distinct = the (program, schedule, results) text differs; non-trivial = at least 4 granted steps"
 	for i := 0; i < 3 && i < len(cases); i++ {
 		meta.Samples = append(meta.Samples, meta.Traces[i*len(cases)/3])
 	}
